@@ -17,7 +17,7 @@ theorem claimed_bounds {f : Bool} {leaf : LeafInfo} {cl : ChunkLayout} {es : Chu
     leaf.path.length ≤ 100 ∧ (usedEncodings cl).length ≤ 100 ∧ chunkExtrasDepthOk cl = true := by
   unfold Carquet.Impl.Reader.Claim.chunkClaimed at h
   simp only [Bool.and_eq_true, decide_eq_true_eq] at h
-  exact ⟨h.1.1.2, h.1.2, h.1.1.1.1.1.1.1⟩
+  exact ⟨h.1.1.2, h.1.2, h.1.1.1.1.1.1⟩
 
 theorem chunkDepth_parts {cl : ChunkLayout} (h : chunkExtrasDepthOk cl = true) :
     extrasDepth 29 cl.chunkExtra = true ∧ extrasDepth 28 cl.metaExtra = true := by
